@@ -85,8 +85,30 @@ def run(tier, seed, replay=None):
         orc = oracle.Oracle(doc)
         info = run_.info.get(cid, {})
         tf = type_facts(res)
+        # targets: the definitions, and the structs generated for INLINE object schemas of their members (only those
+        # keep a whole-type `default` of their own)
+        types_by_id = {t["id"]: t for t in res.get("types") or []}
+        targets = []
         for dname, dschema in defs.items():
-            tname = norm(((res.get("defs") or {}).get(dname) or {}).get("name") or "")
+            dinfo = (res.get("defs") or {}).get(dname) or {}
+            targets.append((dname, norm(dinfo.get("name") or ""), dschema, (lambda v, dn=dname: orc.valid_or_none(v, dn))))
+            dt = types_by_id.get(dinfo.get("id"))
+            if dt and dt["kind"] == "struct" and isinstance(dschema, dict) and isinstance(dschema.get("properties"), dict):
+                for pr_ in dt.get("props") or []:
+                    ps = dschema["properties"].get(pr_["name"])
+                    if not (isinstance(ps, dict) and ps.get("type") == "object" and isinstance(ps.get("properties"), dict)):
+                        continue
+                    tt = types_by_id.get(pr_["type_id"])
+                    if tt and tt["kind"] == "option":
+                        tt = types_by_id.get(tt["of"])
+                    if tt and tt["kind"] == "struct":
+                        def _valid(v, ps=ps):
+                            try:
+                                return oracle.valid_against(ps, v, defs)
+                            except Exception:
+                                return None
+                        targets.append(("%s.%s" % (dname, pr_["name"]), norm(tt["name"]), ps, _valid))
+        for dname, tname, dschema, is_valid in targets:
             if tname not in info or "build" not in info[tname]:
                 continue
             item = tf.get(tname)
@@ -98,7 +120,7 @@ def run(tier, seed, replay=None):
             r = util.rng(seed, PROP, "inst", cid, dname)
             ig = instgen.InstGen(r, defs, undeclared=False)
             insts = [v for v in ig.instances(dschema, 5) if isinstance(v, dict) and pipeline.within_i64(v)]
-            insts = [v for v in insts if orc.valid_or_none(v, dname)]
+            insts = [v for v in insts if is_valid(v)]
             required = set()
             schema_reference = True
             rs = dschema
